@@ -3,7 +3,7 @@ the records of the hand models (the only hand-written part of the translator tie
 import ast
 import os
 
-from .translate import Unit, find_function, TranslationError
+from .translate import Unit, QUnit, find_function, TranslationError
 
 
 def gen_standardiser(repo):
@@ -41,7 +41,30 @@ def gen_standardiser(repo):
     return "\n".join(out)
 
 
-UNITS = {"Gen_standardiser.v": gen_standardiser}
+def gen_controllers(repo):
+    """LinearController.regulate and RelativeSupplyController.regulate (state = the target pool)"""
+    out = ["(* GENERATED on every run by py2coq from src/cobald/controller/{linear,relative_supply}.py -- do not edit *)",
+           "From Coq Require Import ZArith QArith Bool.",
+           "From Cobald Require Import kit.QKit model.Controllers.",
+           "Open Scope Q_scope.", ""]
+    for fname, cls, rec, coq, fields in (
+            ("linear.py", "LinearController", "linear", "gen_linear_regulate",
+             {"self.low_utilisation": "(l_low c)", "self.high_allocation": "(l_high c)", "self.rate": "(l_rate c)",
+              "self.interval": "(l_interval c)"}),
+            ("relative_supply.py", "RelativeSupplyController", "relative", "gen_relative_regulate",
+             {"self.low_utilisation": "(r_low c)", "self.high_allocation": "(r_high c)", "self.low_scale": "(r_low_scale c)",
+              "self.high_scale": "(r_high_scale c)", "self.interval": "(r_interval c)"})):
+        with open(os.path.join(repo, "src", "cobald", "controller", fname)) as fh:
+            tree = ast.parse(fh.read())
+        reads = {"self.target.supply": "(p_supply st)", "self.target.demand": "(p_demand st)",
+                 "self.target.utilisation": "(p_util st)", "self.target.allocation": "(p_alloc st)"}
+        reads.update(fields)
+        u = QUnit(reads=reads, writes={"self.target.demand": "set_demand"}, funcs={}, state_type="pool")
+        out.append(u.function(find_function(tree, "regulate", cls=cls), coq, "setter", True, extra_params="(c : %s)" % rec))
+    return "\n".join(out)
+
+
+UNITS = {"Gen_standardiser.v": gen_standardiser, "Gen_controllers.v": gen_controllers}
 
 
 def regen(repo, gendir, names=None):
